@@ -204,3 +204,37 @@ def c07_generate_float(ctx, dim):
             if tuple(int(x) for x in g.shape) != tuple(shape) or not np.allclose(np.asarray(g.voxel_size, dtype=float), np.asarray(img.voxel_size, dtype=float), rtol=1e-12, atol=0):
                 bad.append((shape, dims, tuple(g.shape)))
     ctx.ensure(f"grid shape == image voxel counts and grid voxel size == image voxel size for every (extent, size) of the sweep; first failures: {bad[:3]}", not bad)
+
+
+# shapes whose cell / face counts straddle the limits of the narrow integer types (127, 32767): an index table stored in a type chosen from
+# the WRONG count wraps around silently there
+LARGE_SHAPES = [(8, 12), (11, 12), (150, 150), (182, 181), (24, 25, 30), (33, 32, 32), (40000,)]
+
+
+@ob("C07.index_range", kind="B", cases=[dict(shape=s) for s in LARGE_SHAPES], funcs=FUNCS, samples=(1, 1), tol=0.0,
+    cite="every interior face joins exactly two neighbouring cells ... numbering of cells and faces is a bijection; the cell-to-face lookup is the inverse of the face-to-cell connectivity",
+    note="bounded, vectorised: grids with up to 4e4 cells whose cell and face counts lie on either side of 2^7 and 2^15 - every index table holds valid indices (no wrap-around in a narrow "
+         "integer type) and the cell-to-face table is exactly the inverse of the connectivity (after seed C07_k)")
+def c07_index_range(ctx, shape):
+    g = darsia.Grid(tuple(shape), [0.5] * len(shape))
+    dim, nc, nf = len(shape), int(np.prod(shape)), int(g.num_faces)
+    want_nf = sum(int(np.prod([n - 1 if a == d else n for a, n in enumerate(shape)])) for d in range(dim))
+    ctx.ensure("number of cells and of interior faces", int(g.num_cells) == nc and nf == want_nf)
+    conn = np.asarray(g.connectivity)
+    ctx.ensure("connectivity: one row of two valid, different cell indices per face", conn.shape == (nf, 2) and conn.dtype.kind in "iu" and int(conn.min()) >= 0 and int(conn.max()) < nc and bool(np.all(conn[:, 0] < conn[:, 1])))
+    ci = np.asarray(g.cell_index)
+    ctx.ensure("cell numbering is a bijection onto 0 .. num_cells-1", ci.shape == tuple(shape) and bool(np.array_equal(np.sort(ci.ravel()), np.arange(nc))))
+    faces = [np.asarray(f) for f in g.faces]
+    allf = np.concatenate(faces) if faces else np.zeros(0, dtype=int)
+    ctx.ensure("face numbering is a bijection onto 0 .. num_faces-1, grouped by axis", bool(np.array_equal(np.sort(allf), np.arange(nf))) and [len(f) for f in faces] == [int(n) for n in g.num_faces_per_axis])
+    rc = np.asarray(g.reverse_connectivity)
+    ctx.ensure("cell-to-face table: shape (dim, cells, 2), entries -1 or a valid face index", rc.shape == (dim, nc, 2) and rc.dtype.kind == "i" and int(rc.min()) >= -1 and int(rc.max()) < max(nf, 1))
+    ok_inv = True
+    for d in range(dim):
+        f = faces[d]
+        ok_inv = ok_inv and bool(np.array_equal(rc[d, conn[f, 1], 0], f)) and bool(np.array_equal(rc[d, conn[f, 0], 1], f))
+        ok_inv = ok_inv and int(np.count_nonzero(rc[d] >= 0)) == 2 * len(f)
+        ctx.tick()
+    ctx.ensure("cell-to-face table is exactly the inverse of the connectivity (face f of axis d is the upper face of its lower cell and the lower face of its upper cell; nothing else is set)", ok_inv)
+    fi = [np.asarray(x) for x in g.face_index]
+    ctx.ensure("face_index tables hold the faces of their axis", all(bool(np.array_equal(np.sort(fi[d].ravel()), np.sort(faces[d]))) for d in range(dim)))
